@@ -183,3 +183,5 @@ func vsymContains(hay, needle []byte) bool {
 	}
 	return false
 }
+
+func bgCtx() context.Context { return context.Background() }
